@@ -113,7 +113,8 @@ def check_projects(report: Report, tier: str) -> dict:
     pio = _pio()
     boards = sorted(pio.BOARD_TO_PLATFORM)
     ports = ["COM3", "/dev/ttyACM0", "/dev/tty usb 0", "100%", "a;b", "#hash", "k=v", "[x]", "ü-port", "${sys}", "%(x)s", "",
-             "usb-{lib_section}-if00", "{port}", "{board}/{platform}", "{env_name}", "{}", "{0}", "{{x}}", "}{"]
+             "usb-{lib_section}-if00", "{port}", "{board}/{platform}", "{env_name}", "{}", "{0}", "{{x}}", "}{",
+             "rfc2217://192.168.0.17:4000", "socket://10.0.0.5:2323", "a//b", "/dev//ttyUSB0", "/dev/./tty", "COM3/", "../tty", "C:\\dev\\port"]
     libs_alpha = ["Servo", "LiquidCrystal", "LiquidCrystal_I2C", ""]
     lib_lists: List[Optional[List[str]]] = [None]
     for k in range(0, 4):
